@@ -14,7 +14,16 @@ for p in props:
     if not (os.path.exists(ev) and os.path.exists(mf)):
         out.append(f'| {pid} | not built | | | | |'); continue
     e = json.load(open(ev)); c = e['coverage']; m = json.load(open(mf))
-    axs = sorted({a.split('.')[-1] for t in c.get('theorems', []) for a in t.get('axioms', [])})
+    full = sorted({a for t in c.get('theorems', []) for a in t.get('axioms', [])})
+    logical = sorted({a.split('.')[-1] for a in full
+                      if a.split('.')[-2:-1] not in (['PrimFloat'], ['PrimInt63'], ['FloatAxioms'], ['Uint63'])})
+    nprim = len([a for a in full if a.split('.')[-2:-1] in (['PrimFloat'], ['PrimInt63'])])
+    nspec = len([a for a in full if a.split('.')[-2:-1] in (['FloatAxioms'], ['Uint63'])])
+    axs = list(logical)
+    if nprim or nspec:
+        axs.append(f'binary64/int63: {nprim} kernel primitives, {nspec} FloatAxioms/Uint63 specifications (§6)')
+    nclosed = len([t for t in c.get('theorems', []) if not t.get('axioms')])
+    axs.append(f'[{nclosed} of {len(c.get("theorems", []))} theorems closed]') if axs else None
     txt = m['level_claimed']['text']
     strength = 'partial' if re.search(r'\bpartial\b', txt, re.I) else 'full (model level)'
     out.append(f"| {pid} | {c['discharged']} / {c['obligations']} | {', '.join(axs) or 'none (closed)'} | "
